@@ -200,6 +200,8 @@ static const char *const num_subst[] = {
 
 /* ------------------------------------------------------------ mutators */
 
+static int all_numbers(const char *s, size_t n);
+
 static void lf_mutate(int kind, int mut, int seedno, vt_rng_t *rng, buf_t *res)
 {
     const buf_t *b = &seeds[kind][seedno];
@@ -645,6 +647,213 @@ static void lf_mutate(int kind, int mut, int seedno, vt_rng_t *rng, buf_t *res)
 		    } else {
 			out_add(&o, s, n);
 		    }
+		}
+	    }
+	}
+	break;
+    case M_TOKLEN:
+	{
+	    /* a token whose length sits on a buffer-size boundary: 2^k - 1,
+	     * 2^k, 2^k + 1 characters for k = 4..12 (tokenizers grow their
+	     * text buffers by doubling) */
+	    int k = 4 + vt_below(rng, 9);
+	    size_t len = ((size_t)1 << k) + (size_t)vt_below(rng, 3) - 1;
+	    int how = vt_below(rng, 6);
+	    char *tok = malloc(len + 8);
+	    int at;
+
+	    tokenize(b);
+	    at = pick_word(rng);
+	    /* prefer a numeric token for the numeric shapes */
+	    if (how < 3) {
+		for (int t = 0; t < 12; ++t) {
+		    int w = pick_word(rng);
+
+		    if (w >= 0 && is_number_token(b->p + toks[w].off,
+				toks[w].len)) {
+			at = w;
+			break;
+		    }
+		}
+	    }
+	    switch (how) {
+	    case 0:			/* 1.5000...0 */
+		memset(tok, '0', len);
+		tok[0] = '1';
+		if (len > 1)
+		    tok[1] = '.';
+		if (len > 2)
+		    tok[2] = '5';
+		break;
+	    case 1:			/* 000...017 (leading zeros) */
+		memset(tok, '0', len);
+		tok[len - 1] = '7';
+		if (len > 1)
+		    tok[len - 2] = '1';
+		break;
+	    case 2:			/* 0.000...01e+05 */
+		memset(tok, '0', len);
+		if (len > 8) {
+		    tok[1] = '.';
+		    memcpy(tok + len - 5, "1e+05", 5);
+		}
+		break;
+	    case 3:			/* a long word */
+		for (size_t i = 0; i < len; ++i)
+		    tok[i] = (char)('a' + (int)(i % 26));
+		break;
+	    case 4:			/* a long [keyword] / "#:keyword" */
+		for (size_t i = 0; i < len; ++i)
+		    tok[i] = (char)('A' + (int)(i % 26));
+		if (IS_TOUCHSTONE(kind)) {
+		    /* the tokenizer collects what is between the brackets:
+		     * make that part len characters long */
+		    char *t2 = malloc(len + 8);
+
+		    t2[0] = '[';
+		    memcpy(t2 + 1, tok, len);
+		    t2[len + 1] = ']';
+		    len += 2;
+		    free(tok);
+		    tok = t2;
+		} else if (kind == K_NPD && len > 2) {
+		    tok[0] = '#';
+		    tok[1] = ':';
+		}
+		break;
+	    default:			/* a long format list / key: value */
+		for (size_t i = 0; i < len; ++i)
+		    tok[i] = "Sri,Zma,"[i % 8];
+		break;
+	    }
+	    tok[len] = '\0';
+	    if (how == 5 || (how >= 3 && !IS_DATA(kind)) || vt_below(rng, 5) == 0) {
+		/* as a line of its own: comment, header or "key: value" */
+		int ln;
+
+		split_lines(b);
+		ln = nlines > 0 ? vt_below(rng, nlines + 1) : 0;
+		for (int i = 0; i <= nlines; ++i) {
+		    if (i == ln) {
+			if (IS_TOUCHSTONE(kind)) {
+			    out_str(&o, how == 5 ? "! " : "");
+			} else if (kind == K_NPD) {
+			    out_str(&o, how == 5 ? "#:parameters " :
+				    how == 3 ? "# " : "");
+			} else {
+			    size_t sk = 0;
+
+			    if (i < nlines) {
+				const char *s = b->p + lines_[i].off;
+
+				while (sk < lines_[i].len && s[sk] == ' ')
+				    ++sk;
+				out_add(&o, s, sk);
+			    }
+			    if (how != 5)	/* long key */
+				out_add(&o, tok, len);
+			    out_str(&o, how != 5 ? ": v" : "k: ");
+			}
+			if (IS_DATA(kind) || how == 5)
+			    out_add(&o, tok, len);
+			out_str(&o, "\n");
+		    }
+		    if (i < nlines)
+			out_add(&o, b->p + lines_[i].off, lines_[i].len);
+		}
+	    } else {
+		for (int i = 0; i < ntoks; ++i) {
+		    if (i == at)
+			out_add(&o, tok, len);
+		    else
+			out_add(&o, b->p + toks[i].off, toks[i].len);
+		}
+	    }
+	    free(tok);
+	}
+	break;
+    case M_FREQEQ:
+	{
+	    /* frequency entries: make one equal to its predecessor (same
+	     * text or an equivalent spelling), swap two neighbours, or make
+	     * it zero / negative */
+	    int fl[MAXLINES], nfl = 0, pick, how;
+	    size_t foff[MAXLINES], flen[MAXLINES];
+
+	    split_lines(b);
+	    for (int i = 0; i < nlines; ++i) {
+		const char *s = b->p + lines_[i].off;
+		size_t n = lines_[i].len, j = 0, e;
+
+		if (kind == K_VNACAL) {
+		    /* "  - f: <number>" or "    f: <number>" */
+		    while (j < n && (s[j] == ' ' || s[j] == '-'))
+			++j;
+		    if (j + 2 >= n || s[j] != 'f' || s[j + 1] != ':')
+			continue;
+		    j += 2;
+		    while (j < n && s[j] == ' ')
+			++j;
+		} else {
+		    /* data lines that start in column 0 carry the frequency
+		     * in their first field */
+		    if (n == 0 || isspace((unsigned char)s[0]) ||
+			    !all_numbers(s, n))
+			continue;
+		}
+		e = j;
+		while (e < n && !isspace((unsigned char)s[e]))
+		    ++e;
+		if (e == j)
+		    continue;
+		fl[nfl] = i;
+		foff[nfl] = j;
+		flen[nfl] = e - j;
+		++nfl;
+	    }
+	    pick = nfl >= 2 ? 1 + vt_below(rng, nfl - 1) : -1;
+	    how = vt_below(rng, 9);
+	    for (int i = 0; i < nlines; ++i) {
+		const char *s = b->p + lines_[i].off;
+		size_t n = lines_[i].len;
+		int q = -1;
+
+		if (pick >= 0 && (i == fl[pick] ||
+			    (how == 6 && i == fl[pick - 1])))
+		    q = i == fl[pick] ? pick : pick - 1;
+		if (q < 0) {
+		    out_add(&o, s, n);
+		    continue;
+		}
+		{
+		    /* the text and value of the OTHER entry of the pair */
+		    int other = q == pick ? pick - 1 : pick;
+		    const char *os = b->p + lines_[fl[other]].off + foff[other];
+		    char prev[128], num[160];
+		    size_t pl = flen[other] < sizeof(prev) - 1 ?
+			flen[other] : sizeof(prev) - 1;
+		    double v;
+
+		    memcpy(prev, os, pl);
+		    prev[pl] = '\0';
+		    v = strtod(prev, NULL);
+		    switch (how) {
+		    case 0:  snprintf(num, sizeof(num), "%s", prev); break;
+		    case 1:  snprintf(num, sizeof(num), "%.0f", v); break;
+		    case 2:  snprintf(num, sizeof(num), "%.17g", v); break;
+		    case 3:  snprintf(num, sizeof(num), "+%s", prev); break;
+		    case 4:  snprintf(num, sizeof(num), "00%s", prev); break;
+		    case 5:  snprintf(num, sizeof(num), "%.1f", v); break;
+		    case 6:  snprintf(num, sizeof(num), "%s", prev); break; /* swap */
+		    case 7:  snprintf(num, sizeof(num), "0"); break;
+		    default: snprintf(num, sizeof(num), "-%s", prev); break;
+		    }
+		    /* 00<text> must stay a decimal number */
+		    if (how == 4 && (prev[0] == '+' || prev[0] == '-'))
+			snprintf(num, sizeof(num), "%c00%s", prev[0], prev + 1);
+		    out_add(&o, s, foff[q]);
+		    out_str(&o, num);
+		    out_add(&o, s + foff[q] + flen[q], n - foff[q] - flen[q]);
 		}
 	    }
 	}
